@@ -6,6 +6,8 @@ import types
 import z3
 
 from .vals import *
+import os as _os
+TUPCAT = not _os.environ.get("PYVC_NO_TUPCAT")
 from .core import *
 from .interp import Interp, func_ast, qualname, defining_class
 
@@ -79,8 +81,8 @@ class Interp2(Interp):
                     self.raise_exc(TypeError)
             return self.select_concrete(list(o), i)
         if isinstance(o, STup):
-            pos = self.norm_index(self.int_term(i), z3.Length(o.t))
-            return self.kind_wrap(o.ek, self.mk_nth(o.t, self.resolve_ite(pos)))
+            pos = self.norm_index(self.int_term(i), self.mk_len(o.t))
+            return self.kind_wrap(o.ek, self.mk_nth(o.t, self.resolve_ite(pos), True))
         if isinstance(o, (SymObj,)):
             gi = self.find_class_attr(o.cls, '__getitem__')
             if isinstance(gi, types.FunctionType):
@@ -122,8 +124,8 @@ class Interp2(Interp):
                 except TypeError:
                     self.raise_exc(TypeError)
             return self.select_concrete(c.items, i)
-        pos = self.norm_index(self.int_term(i), z3.Length(c.t))
-        return self.kind_wrap(c.ek, c.t[pos])
+        pos = self.norm_index(self.int_term(i), self.mk_len(c.t))
+        return self.kind_wrap(c.ek, self.mk_nth(c.t, self.resolve_ite(pos), True))
 
     def dict_lookup(self, d, k):
         if not is_sym(k):
@@ -275,12 +277,34 @@ class Interp2(Interp):
                 return self.rw(l)
         return z3.Length(t)
 
-    def mk_nth(self, t, pos):
+    def mk_nth(self, t, pos, tup=False):
         t = self.resolve_ite(self.rw(t))
         if z3.is_app(t) and t.decl().kind() == z3.Z3_OP_SEQ_EXTRACT:
             base, o, l = t.arg(0), t.arg(1), t.arg(2)
             if self.entails_cheap(z3.And(o >= 0, pos >= 0, pos < l, o + l <= z3.Length(base))):
                 return self.rw(base[self.rw(o + pos)])
+        if z3.is_app(t) and t.decl().kind() == z3.Z3_OP_SEQ_CONCAT and t.num_args() <= 6 \
+                and TUPCAT and (tup or t.sort() != SeqS) and self.entails_cheap(pos >= 0):
+            # element of a concatenation (tuples / lists): the part that holds the position when the path
+            # condition decides it, a conditional over the first part otherwise
+            first = t.arg(0)
+            rest = t.arg(1) if t.num_args() == 2 else z3.Concat(*[t.arg(i) for i in range(1, t.num_args())])
+            l0 = self.mk_len(first)
+            if self.entails_cheap(pos < l0):
+                return self.mk_nth(first, pos, tup)
+            if self.entails_cheap(pos >= l0):
+                return self.mk_nth(rest, self.rw(pos - l0), tup)
+            self.st.pc.append(pos < l0)
+            try:
+                a = self.mk_nth(first, pos, tup)
+            finally:
+                self.st.pc.pop()
+            self.st.pc.append(pos >= l0)
+            try:
+                b = self.mk_nth(rest, self.rw(pos - l0), tup)
+            finally:
+                self.st.pc.pop()
+            return z3.If(pos < l0, a, b)
         return t[pos]
 
     def getslice(self, o, lo, hi, step):
@@ -314,7 +338,7 @@ class Interp2(Interp):
                     return self.alloc(ListCell(items=c.items[lo:hi]))
                 ek = self.seq_elem_kind(o)
                 t = self.list_seq_term(c, ek)
-                start, length = self.slice_bounds(lo, hi, z3.Length(t))
+                start, length = self.slice_bounds(lo, hi, self.mk_len(t))
                 return self.alloc(ListCell(t=self.rw(z3.Extract(t, start, length)), ek=ek))
         if isinstance(o, tuple) and (is_sym(lo) or is_sym(hi)):
             ek = self.seq_elem_kind(o)
@@ -322,7 +346,7 @@ class Interp2(Interp):
                 return ()
             o = STup(self.tuple_seq_term(o, ek), ek)
         if isinstance(o, STup):
-            start, length = self.slice_bounds(lo, hi, z3.Length(o.t))
+            start, length = self.slice_bounds(lo, hi, self.mk_len(o.t))
             return STup(self.mk_extract(o.t, start, length), o.ek)
         raise OutOfReach('slice of %r' % (o,))
 
